@@ -50,17 +50,31 @@ func Harness_P08() {
 	otherNil := ndNot(flag2)
 
 	// the callee
-	shape := ndChoice("callee_shape", 2)
+	shape := ndChoice("callee_shape", ndParam("SHAPES", 4))
 	var res p08Ret
 	respects := true
-	b.WriteString("func callee() (*int, error) {\n")
+	if shape >= 2 {
+		// named results: the first return is `v, err = R1` + bare return; the second is explicit (shape 2) or bare too (shape 3)
+		s1, r1 := p08Return("ret1")
+		s2, r2 := p08Return("ret2")
+		b.WriteString("func callee() (v *int, err error) {\n\tif flag0 {\n\t\tv, err = " + s1 + "\n\t\treturn\n\t}\n")
+		if shape == 2 {
+			b.WriteString("\treturn " + s2 + "\n}\n\n")
+		} else {
+			b.WriteString("\tv, err = " + s2 + "\n\treturn\n}\n\n")
+		}
+		res = p08Ite(flag0, r1, r2)
+		respects = !(r1.vnil && r1.enil) && !(r2.vnil && r2.enil)
+	} else {
+		b.WriteString("func callee() (*int, error) {\n")
+	}
 	if shape == 0 {
 		s1, r1 := p08Return("ret1")
 		s2, r2 := p08Return("ret2")
 		b.WriteString("\tif flag0 {\n\t\treturn " + s1 + "\n\t}\n\treturn " + s2 + "\n}\n\n")
 		res = p08Ite(flag0, r1, r2)
 		respects = !(r1.vnil && r1.enil) && !(r2.vnil && r2.enil)
-	} else {
+	} else if shape == 1 {
 		s2, r2 := p08Return("ret2")
 		b.WriteString("\tif e := other(); e != nil {\n\t\treturn nil, e\n\t}\n\treturn " + s2 + "\n}\n\n")
 		res = p08Ite(otherNil, r2, p08Ret{true, false, false, true})
@@ -135,5 +149,89 @@ func Harness_P08() {
 	ndAssert("P08.A1.a_possible_nil_dereference_of_a_guarded_result_is_reported", ndImplies(panics, reported))
 	if respects && proper {
 		ndAssert("P08.A2.checked_use_of_a_convention_respecting_callee_is_not_reported", !reported)
+	}
+}
+
+// Harness_P08_Ok: the (value, ok) form with constant ok operands.
+func Harness_P08_Ok() {
+	flag0, flag2 := ndBool("flag0"), ndBool("flag2")
+	var b strings.Builder
+	b.WriteString("package p\n\nvar flag0, flag2 bool\n\nfunc other() bool { return flag2 }\n\n")
+	ret := func(tag string) (string, bool, bool) { // text, value is nil, ok
+		switch ndChoice(tag, 4) {
+		case 0:
+			return "nil, true", true, true
+		case 1:
+			return "new(int), true", false, true
+		case 2:
+			return "nil, false", true, false
+		}
+		return "new(int), false", false, false
+	}
+	s1, v1, o1 := ret("ret1")
+	s2, v2, o2 := ret("ret2")
+	named := ndChoice("named_results", 2) == 1
+	if named {
+		b.WriteString("func callee() (v *int, ok bool) {\n\tif flag0 {\n\t\tv, ok = " + s1 + "\n\t\treturn\n\t}\n\treturn " + s2 + "\n}\n\n")
+	} else {
+		b.WriteString("func callee() (*int, bool) {\n\tif flag0 {\n\t\treturn " + s1 + "\n\t}\n\treturn " + s2 + "\n}\n\n")
+	}
+	vnil, ok := ndIteBool(flag0, v1, v2), ndIteBool(flag0, o1, o2)
+	respects := !(v1 && o1) && !(v2 && o2)
+	f := "callee"
+	if ndChoice("forwarded", 2) == 1 {
+		b.WriteString("func mid() (*int, bool) { return callee() }\n\n")
+		f = "mid"
+	}
+	proper := false
+	var panics bool
+	b.WriteString("func Entry() int {\n")
+	switch ndChoice("caller_form", 7) {
+	case 0:
+		b.WriteString("\tv, ok := " + f + "()\n\tif !ok {\n\t\treturn 0\n\t}\n\treturn *v\n")
+		panics, proper = ndAnd(ok, vnil), true
+	case 1:
+		b.WriteString("\tv, _ := " + f + "()\n\treturn *v\n")
+		panics = vnil
+	case 2:
+		b.WriteString("\tv, ok := " + f + "()\n\tif ok {\n\t\treturn *v\n\t}\n\treturn 0\n")
+		panics, proper = ndAnd(ok, vnil), true
+	case 3:
+		b.WriteString("\tv, ok := " + f + "()\n\t_ = ok\n\treturn *v\n")
+		panics = vnil
+	case 4:
+		b.WriteString("\tv, ok := " + f + "()\n\tok = other()\n\tif !ok {\n\t\treturn 0\n\t}\n\treturn *v\n")
+		panics = ndAnd(flag2, vnil)
+	case 5:
+		b.WriteString("\tv, ok := " + f + "()\n\tif ok == false {\n\t\treturn 0\n\t}\n\treturn *v\n")
+		panics = ndAnd(ok, vnil)
+	default:
+		b.WriteString("\tv, ok := " + f + "()\n\tif !ok {\n\t\t_ = 0\n\t}\n\treturn *v\n")
+		panics = vnil
+	}
+	b.WriteString("}\n")
+	src := b.String()
+	ndObserveStr("source", src)
+	pipeDebug = ndParam("DEBUG", 0) == 1
+	r := pipeAnalyse(src)
+	for _, t := range r.trace {
+		ndObserveStr("trigger", t)
+	}
+	ndObserveInt("diagnostics", len(r.diags))
+	internal := r.panicked != "" || len(r.funcErrs) > 0
+	for _, d := range r.diags {
+		ndObserveStr("diag", d.Message)
+		if strings.Contains(d.Message, "INTERNAL") {
+			internal = true
+		}
+	}
+	ndAssert("P08.A3.no_internal_failure", !internal)
+	reported := len(r.diags) > 0
+	ndAssert("P08.ok.A1.a_possible_nil_dereference_of_a_guarded_result_is_reported", ndImplies(panics, reported))
+	// With named results the first return is a bare `return`: its ok operand is not a constant, NilAway has to
+	// assume it may be true, and reporting `v, ok = nil, false; return` is within what the property allows
+	// ("constant ok operands"). A2 is therefore stated for explicit returns only.
+	if respects && proper && !named {
+		ndAssert("P08.ok.A2.checked_use_of_a_convention_respecting_callee_is_not_reported", !reported)
 	}
 }
